@@ -21,6 +21,7 @@ type caseT struct {
 	T2   [][]x.Val `json:"t2"`
 	E    []*x.Ex   `json:"e"`              // kind-specific expressions
 	Col  []string  `json:"col,omitempty"`  // in-subquery: column of t1, column of t2
+	Wrap string    `json:"wrap,omitempty"` // between: operator applied on top of both spellings (not, isnull, isnotnull, istrue, isfalse)
 	SQL  []string  `json:"sql,omitempty"`  // the spellings that were run
 }
 
@@ -91,7 +92,7 @@ func genRows(r *lib.RNG) [][]x.Val {
 			case 0, 1:
 				row[j] = x.Int(lib.Pick(r, []int64{-1, 0, 1, 2, 3, 5}))
 			case 2:
-				row[j] = x.Dec(lib.Pick(r, []int64{-150, 0, 50, 100, 150, 200, 225}), 2)
+				row[j] = x.Dec(lib.Pick(r, []int64{-150, 0, 50, 100, 150, 200, 225, 1000, 2000, 10, 10000}), 2)
 			case 3:
 				row[j] = x.Str(lib.Pick(r, []string{"", "a", "A", "ab", "b", "1"}))
 			default:
@@ -104,6 +105,26 @@ func genRows(r *lib.RNG) [][]x.Val {
 }
 
 func and(a, b *x.Ex) *x.Ex { return x.Bin("and", "", a, b) }
+
+func wrap(w string, e *x.Ex) *x.Ex {
+	switch w {
+	case "not":
+		return x.Un("not", e)
+	case "isnull":
+		return x.Un("isnull", e)
+	case "isnotnull":
+		return x.Un("not", x.Un("isnull", e))
+	case "istrue":
+		r := x.Un("istrue", e)
+		r.Op = "true"
+		return r
+	case "isfalse":
+		r := x.Un("istrue", e)
+		r.Op = "false"
+		return r
+	}
+	return e
+}
 
 func orChain(a *x.Ex, l []*x.Ex) *x.Ex {
 	if len(l) == 1 {
@@ -127,6 +148,19 @@ func genCase(r *lib.RNG, t1, t2 [][]x.Val) caseT {
 				o = append(o, x.Lit(x.Str(lib.Pick(r, []string{"a", "A", "B", "ab", "x"})), "str"))
 			}
 		}
+		if r.Chance(1, 4) {
+			// decimal comparison type with a static list holding 0 and multiples of ten
+			o = []*x.Ex{x.Col(2, "d", "dec")}
+			asInt := r.Bool()
+			for i := r.Range(1, 3); i > 0; i-- {
+				n := lib.Pick(r, []int64{0, 10, 20, 1, 2, 100})
+				if asInt {
+					o = append(o, x.Lit(x.Int(n), "int"))
+				} else {
+					o = append(o, x.Lit(x.Dec(n*100, 2), "dec"))
+				}
+			}
+		}
 		if r.Chance(1, 5) {
 			o[r.Range(1, len(o)-1)] = x.Lit(x.Null(), "null")
 		}
@@ -134,6 +168,10 @@ func genCase(r *lib.RNG, t1, t2 [][]x.Val) caseT {
 	case 1:
 		cs.Kind = "between"
 		cs.E = g.Operands(1, 3)
+		if r.Chance(1, 3) {
+			cs.E[r.Range(1, 2)] = x.Lit(x.Null(), "null")
+		}
+		cs.Wrap = lib.Pick(r, []string{"", "", "not", "isnull", "isnotnull", "istrue", "isfalse"})
 	case 2:
 		cs.Kind = "on-where"
 		g2 := &x.Gen{R: r, Raw: false, Cols: append(cols("t1.", 0), cols("t2.", 4)...)}
@@ -344,8 +382,12 @@ func run(c *lib.Ctx, v *env, cs caseT) {
 			c.PredFail(id, "in-or/select/"+feature(cs.E), fmt.Sprintf("[%s] => %v but [%s] => %v (rows %s)", sqls[2], results[2], sqls[3], results[3], rowsText(cs.T1)), cs)
 		}
 	case "between":
-		bt := &x.Ex{K: "between", A: cs.E}
-		pr := and(x.Bin("cmp", ">=", cs.E[0], cs.E[1]), x.Bin("cmp", "<=", cs.E[0], cs.E[2]))
+		bt := wrap(cs.Wrap, &x.Ex{K: "between", A: cs.E})
+		if cs.Wrap == "not" {
+			bt.Alt = true // NOT BETWEEN
+		}
+		pr := wrap(cs.Wrap, and(x.Bin("cmp", ">=", cs.E[0], cs.E[1]), x.Bin("cmp", "<=", cs.E[0], cs.E[2])))
+		c.Count("between-wrap:" + cs.Wrap)
 		if !runAll("SELECT id FROM "+t1+" WHERE "+bt.SQL(), "SELECT id FROM "+t1+" WHERE "+pr.SQL(),
 			"SELECT id, "+bt.SQL()+" FROM "+t1, "SELECT id, "+pr.SQL()+" FROM "+t1) {
 			return
@@ -369,8 +411,15 @@ func run(c *lib.Ctx, v *env, cs caseT) {
 		p1, p2 := cs.E[0], cs.E[1]
 		p := and(p1, p2)
 		sel := "SELECT t1.id, t2.id FROM " + t1 + " t1"
-		if !runAll(sel+" JOIN "+t2+" t2 ON "+p.SQL(), sel+", "+t2+" t2 WHERE "+p.SQL(),
-			sel+" CROSS JOIN "+t2+" t2 WHERE "+p.SQL(), sel+" JOIN "+t2+" t2 ON "+p1.SQL()+" WHERE "+p2.SQL()) {
+		qs := []string{sel + " JOIN " + t2 + " t2 ON " + p.SQL(), sel + ", " + t2 + " t2 WHERE " + p.SQL(),
+			sel + " CROSS JOIN " + t2 + " t2 WHERE " + p.SQL(), sel + " JOIN " + t2 + " t2 ON " + p1.SQL() + " WHERE " + p2.SQL()}
+		if p1.K == "cmp" && p1.Op == "=" {
+			// the equality spelled as two inequalities (no hash / lookup join on it)
+			two := and(x.Bin("cmp", "<=", p1.A[0], p1.A[1]), x.Bin("cmp", "<=", p1.A[1], p1.A[0]))
+			qs = append(qs, sel+" JOIN "+t2+" t2 ON "+and(two, p2).SQL())
+			c.Count("on-where:equality-as-two-inequalities")
+		}
+		if !runAll(qs...) {
 			return
 		}
 		cs.SQL = sqls
@@ -539,8 +588,8 @@ func corpus() []caseT {
 	d := func(m int64) x.Val { return x.Dec(m, 2) }
 	st := x.Str
 	nl := x.Null()
-	t1 := [][]x.Val{{i(1), i(2), d(150), st("a"), st("a")}, {nl, i(3), nl, nl, st("A")}, {i(2), i(0), d(0), st(""), st("b")}, {i(3), i(3), d(225), st("ab"), nl}}
-	t2 := [][]x.Val{{i(1), i(1), d(150), st("a"), st("A")}, {i(2), nl, d(100), st("b"), st("B")}, {nl, i(3), nl, nl, nl}}
+	t1 := [][]x.Val{{i(5), i(5), d(1000), st("b"), st("b")}, {i(5), i(0), d(100), st("b"), st("b")}, {i(1), i(2), d(150), st("a"), st("a")}, {nl, i(3), nl, nl, st("A")}, {i(2), i(0), d(0), st(""), st("b")}, {i(3), i(3), d(225), st("ab"), nl}}
+	t2 := [][]x.Val{{i(7), i(7), d(1000), st("q"), st("q")}, {i(8), i(8), d(10), st("q"), st("q")}, {i(1), i(1), d(150), st("a"), st("A")}, {i(2), nl, d(100), st("b"), st("B")}, {nl, i(3), nl, nl, nl}}
 	a, dd := x.Col(0, "a", "int"), x.Col(2, "d", "dec")
 	li := func(n int64) *x.Ex { return x.Lit(x.Int(n), "int") }
 	return []caseT{
@@ -552,6 +601,11 @@ func corpus() []caseT {
 		{Kind: "between", T1: t1, T2: t2, E: []*x.Ex{a, li(1), li(2)}},
 		// known: BETWEEN in the select list vs the pair of comparisons on decimals of another scale
 		{Kind: "between", T1: t1, T2: t2, E: []*x.Ex{dd, x.Lit(x.Dec(1495, 3), "dec"), x.Lit(x.Dec(1499, 3), "dec")}},
+		{Kind: "between", T1: t1, T2: t2, Wrap: "not", E: []*x.Ex{a, x.Lit(x.Null(), "null"), li(3)}},
+		{Kind: "between", T1: t1, T2: t2, Wrap: "isnotnull", E: []*x.Ex{a, x.Lit(x.Null(), "null"), li(2)}},
+		{Kind: "in-or", T1: t1, T2: t2, E: []*x.Ex{dd, li(10), li(20), li(0)}},
+		{Kind: "in-or", T1: t1, T2: t2, E: []*x.Ex{dd, x.Lit(x.Dec(1000, 2), "dec"), x.Lit(x.Dec(0, 2), "dec")}},
+		{Kind: "on-where", T1: t1, T2: t2, E: []*x.Ex{x.Bin("cmp", "=", x.Col(2, "t1.d", "dec"), x.Col(6, "t2.d", "dec")), x.Lit(x.Int(1), "bool")}},
 		{Kind: "on-where", T1: t1, T2: t2, E: []*x.Ex{x.Bin("cmp", "=", x.Col(0, "t1.a", "int"), x.Col(4, "t2.a", "int")), x.Bin("cmp", "<=", x.Col(1, "t1.b", "int"), x.Col(5, "t2.b", "int"))}},
 		{Kind: "cte", T1: t1, T2: t2, E: []*x.Ex{x.Bin("cmp", ">", a, li(0)), x.Un("isnull", dd)}},
 		{Kind: "in-subquery", T1: t1, T2: t2, Col: []string{"a", "a"}, E: []*x.Ex{x.Lit(x.Int(1), "bool")}},
